@@ -55,6 +55,8 @@ def families(tier, seed):
                 params = dict(moore=moore, plus_one=plus_one, n_holds=1, n_goals=2, qinit=q, **extra)
                 out.append(dict(name=f'{fname} (initial condition incl. memory) qinit={q} {mn} {sh.name}',
                                 run=(lambda h=h, params=params: harness.verify(h, sh, params)), label='per-shape'))
+    from contracts import optdiff as _od
+    out.append(dict(name='same results with assert statements stripped (python -O), section C01', run=_od.family('C01'), label='bounded'))
     return out
 
 
